@@ -34,3 +34,10 @@ package types
 //@ modifies Bank
 //@ ensures err == nil ==> Bank == bankA2A(old(Bank), from, to, amt)
 //@ ensures err != nil ==> Bank == old(Bank)
+
+// signing request through the bandtss keeper (charges the fee payer, writes bandtss/tss state): assumed; it may
+// fail or panic
+//@ func (k BandtssKeeper) CreateDirectSigningRequest
+//@ trusted
+//@ may_panic
+//@ modifies Bank, Other
